@@ -944,6 +944,7 @@ type srvHandler struct {
 	max     atomic.Int32
 	exits   atomic.Int32
 	greet   sync.Map
+	greets  atomic.Int32 // sessions this handler has greeted (proof that it is this server that listens on the address)
 	live    atomic.Int32 // sessions between their first Read and OnExit (a subset of the live ones)
 	maxLive atomic.Int32
 }
@@ -957,6 +958,7 @@ func (h *srvHandler) Read(s *stcp.Session) error {
 		}
 	}
 	if _, loaded := h.greet.LoadOrStore(s, true); !loaded {
+		h.greets.Add(1)
 		l := h.live.Add(1)
 		for {
 			o := h.maxLive.Load()
@@ -994,6 +996,7 @@ func (h *srvHandler) RunEcho(s *stcp.Echo) {
 			break
 		}
 	}
+	h.greets.Add(1)
 	l := h.live.Add(1)
 	for {
 		o := h.maxLive.Load()
@@ -1032,6 +1035,44 @@ func serverCase(k *engine.Case) {
 	srv := stcp.NewTCPSrv(addr, h.mgr)
 	ech := srv.Start(stcp.WithMaxConn(int32(m)), stcp.WithLogger(quietLogger))
 	k.Logf("server %s max=%d clients=%d echo-manager=%v", addr, m, clients, echo)
+	// bring-up: the port was free a moment ago, but another process may have taken it since
+	// (then this server's listen fails, and dials reach somebody else). Go on only once a probe
+	// connection has been greeted by *this* handler; otherwise the case decides nothing - and
+	// the server, which may not be listening at all, is not touched again.
+	up := false
+	bring := time.Now().Add(60 * time.Second)
+	for !up && time.Now().Before(bring) {
+		select {
+		case e := <-ech:
+			k.Inconclusive("the loop-back server could not start (port taken in the meantime?): " + e.Error())
+			return
+		default:
+		}
+		before := h.greets.Load()
+		pc, perr := net.DialTimeout("tcp", addr, time.Second)
+		if perr != nil {
+			time.Sleep(5 * time.Millisecond)
+			continue
+		}
+		pc.SetReadDeadline(time.Now().Add(5 * time.Second))
+		var pb [1]byte
+		pn, _ := pc.Read(pb[:])
+		pc.Close()
+		if pn == 1 && pb[0] == 'A' && h.greets.Load() > before {
+			up = true
+		} else {
+			time.Sleep(5 * time.Millisecond)
+		}
+	}
+	if !up {
+		k.Inconclusive("no probe connection was greeted by this case's server within the bring-up time")
+		return
+	}
+	for w := time.Now().Add(20 * time.Second); h.mgr.ConnCount() != 0 && time.Now().Before(w); {
+		time.Sleep(2 * time.Millisecond)
+	}
+	h.max.Store(0)
+	h.maxLive.Store(0)
 	k.Nontrivial()
 	// connect clients one after another; each waits for greeting or close
 	type cl struct {
